@@ -73,7 +73,7 @@ static void h_reset_writer(void)
 
 /* ------------------------------------------------------------------ case model ---- */
 #define NSTREAM 2
-#define MAXEV 4096
+#define MAXEV 24000
 #define MAXINFO 32
 typedef struct {
     int kidx, isend, ukey; uint16_t flags; uint64_t eid; uint32_t tp;
@@ -152,14 +152,30 @@ static void h_xkey(int i, int convlen, char *name, char *attr, int *ilen, char *
 }
 static char *h_gvalue(int len) { char *v = malloc((size_t)len + 1); for (int j = 0; j < len; j++) v[j] = (char)('0' + (j * 7 + j / 10) % 75); v[len] = 0; return v; }
 
+/* ---- de Bruijn sequence B(8,n): every sequence of n symbols occurs exactly once as a (cyclic) window ---- */
+static uint8_t *DB[9]; static long DBlen[9];
+static void db_rec(int t, int p, int n, int *a, uint8_t *out, long *len)
+{
+    if (t > n) { if (n % p == 0) for (int j = 1; j <= p; j++) out[(*len)++] = (uint8_t)a[j]; return; }
+    a[t] = a[t - p]; db_rec(t + 1, p, n, a, out, len);
+    for (int j = a[t - p] + 1; j < 8; j++) { a[t] = j; db_rec(t + 1, t, n, a, out, len); }
+}
+static const uint8_t *h_debruijn(int n, long *len)
+{
+    if (n < 1 || n > 8) return NULL;
+    if (!DB[n]) { long cap = 1; for (int i = 0; i < n; i++) cap *= 8; DB[n] = malloc((size_t)cap + 16); int a[16] = { 0 }; DBlen[n] = 0; db_rec(1, 1, n, a, DB[n], &DBlen[n]); }
+    *len = DBlen[n]; return DB[n];
+}
+
 /* ---- write the trace described by prog to <base>-<rank>.prof ---- */
+static int h_fresh = 0;   /* 1: do not touch the writer statics (one case per process) */
 static int h_write(const char *prog, const char *base, cfg_t *c, char *err)
 {
     const char *p; wr_t w; memset(&w, 0, sizeof(w));
     if (h_parse_cfg(prog, c, &p)) FAIL("harness: cannot parse case '%s'", prog);
     w.c = c;
     for (int s = 0; s < NSTREAM; s++) Mn[s] = 0;
-    h_reset_writer();
+    if (!h_fresh) h_reset_writer();
     { char v[16]; snprintf(v, sizeof(v), "%d", c->pages); setenv("PARSEC_MCA_profile_buffer_pages", v, 1); }
     int rc;
     if ((rc = parsec_profiling_init(c->rank)) != 0) FAIL("writer: parsec_profiling_init returned %d", rc);
@@ -202,6 +218,13 @@ static int h_write(const char *prog, const char *base, cfg_t *c, char *err)
             if ((kc != 'A' && kc != 'B') || (sg != '+' && sg != '-') || s < 0 || s >= NSTREAM) FAIL("harness: bad token at '%s'", p);
             p += n;
             for (int i = 0; i < rep; i++) if (h_emit(&w, s, kc - 'A', sg == '-', -1, err)) return 1;
+        } else if (*p == 'W') {
+            int wn, seg, nseg, n; long dl;
+            if (sscanf(p, "W%d:%d/%d%n", &wn, &seg, &nseg, &n) != 3 || nseg < 1 || seg < 0 || seg >= nseg) FAIL("harness: bad token at '%s'", p);
+            p += n;
+            const uint8_t *db = h_debruijn(wn, &dl); if (!db) FAIL("harness: bad window length %d", wn);
+            long per = (dl + nseg - 1) / nseg, start = per * seg, cnt = per + wn - 1;
+            for (long i = 0; i < cnt; i++) { int sym = db[(start + i) % dl]; if (h_emit(&w, (sym >> 2) & 1, (sym >> 1) & 1, sym & 1, -1, err)) return 1; }
         } else FAIL("harness: bad token at '%s'", p);
     }
     if ((rc = parsec_profiling_dbp_dump()) != 0) FAIL("writer: parsec_profiling_dbp_dump returned %d (%s)", rc, parsec_profiling_strerror());
@@ -217,7 +240,10 @@ static void h_layout(const char *path, char *out, size_t cap, int *maxbuf)
     parsec_profiling_binary_file_header_t h;
     if (pread(fd, &h, sizeof(h), 0) != (ssize_t)sizeof(h)) { close(fd); snprintf(out, cap, "short"); return; }
     struct stat sb; fstat(fd, &sb);
-    size_t o = (size_t)snprintf(out, cap, "bufs=%ld dict=%d thr=%d", (long)(sb.st_size / (h.profile_buffer_size > 0 ? h.profile_buffer_size : 1)), h.dictionary_size, h.nb_threads);
+    /* (the total number of segments in the file is not part of the signature: it depends on when the helper thread pre-maps spare buffers) */
+    int chain[2] = { 0, 0 }; int64_t coff[2] = { h.dictionary_offset, h.info_offset };
+    for (int k = 0; k < 2; k++) { int64_t off = coff[k]; while (off >= 0 && chain[k] < 64) { char hb[64]; if (pread(fd, hb, sizeof(hb), off) != (ssize_t)sizeof(hb)) break; chain[k]++; off = ((parsec_profiling_buffer_t *)hb)->next_buffer_file_offset; } }
+    size_t o = (size_t)snprintf(out, cap, "dict=%d/%dbuf infos=%d/%dbuf thr=%d", h.dictionary_size, chain[0], h.info_size, chain[1], h.nb_threads);
     if (h.nb_threads > 0 && h.thread_offset >= 0 && h.profile_buffer_size >= 4096 && h.profile_buffer_size <= (1 << 20)) {
         char *tb = malloc((size_t)h.profile_buffer_size);
         if (pread(fd, tb, (size_t)h.profile_buffer_size, h.thread_offset) == h.profile_buffer_size) {
@@ -390,9 +416,9 @@ static int gen_seq(const unit_t *u, case_fn fn, void *arg)
 static long seq_count(int n) { long c = 1; for (int i = 0; i < n; i++) c *= 8; return c; }
 
 /* leg "runs": long uniform runs that fill exactly k buffers -1/0/+1 event, by count and by exact byte fill, + a short tail */
-#define RUN_K 4
+static int RUN_K = 4;
 static const char *TAILS[] = { "", "A+1", "B-0 A+1", "A+0 B+0 B-1", "B+1 A-0 A+1 B-0" };
-#define NTAIL 5
+static int NTAIL = 5;
 static long runs_count(void) { return 4L /*symbol kinds*/ * RUN_K * (3 + 4) * NTAIL; }
 static int gen_runs(const unit_t *u, case_fn fn, void *arg)
 {
@@ -414,14 +440,18 @@ static int gen_runs(const unit_t *u, case_fn fn, void *arg)
     return 0;
 }
 
-/* leg "dict": number of extra dictionary entries x convertor length (dictionary spans 1..n buffers) ; leg "infos": global info value length */
-static int DICT_CONV[] = { 0, 1, 17, 64 }; static int dict_maxx = 48;
-static long dict_count(void) { return (long)(dict_maxx + 1) * 4; }
+/* leg "dict": (a) number of extra dictionary entries x convertor length (the dictionary spans 1..n buffers);
+ * (b) 16 extra entries x every convertor length 0..255 (entries end at every distance from a buffer end) ; leg "infos": global info value length */
+static int DICT_CONV[] = { 0, 1, 17, 64 }; static int dict_maxx = 48, dict_step = 1, conv_step = 1;
+static long dict_count_a(void) { return (long)(dict_maxx / dict_step + 1) * 4; }
+static long dict_count(void) { return dict_count_a() + 255 / conv_step + 1; }
 static int gen_dict(const unit_t *u, case_fn fn, void *arg)
 {
     char prog[256];
     for (long idx = u->lo; idx < u->hi; idx++) {
-        int xn = (int)(idx / 4), cl = DICT_CONV[idx % 4];
+        int xn, cl;
+        if (idx < dict_count_a()) { xn = (int)(idx / 4) * dict_step; cl = DICT_CONV[idx % 4]; }
+        else { xn = 16; cl = (int)(idx - dict_count_a()) * conv_step; }
         snprintf(prog, sizeof(prog), "K=4,24 M=%d P=1 X=%d,%d G=3 R=%d ; A+0 B+1 B-1 A-0", (int)(idx % 3), xn, cl, (int)(idx % 5));
         int r = fn(prog, arg); if (r) return r;
     }
@@ -433,13 +463,42 @@ static void infos_init(int thorough)
     long avail = h_avail(1); infos_n = 0;
     infos_lens[infos_n++] = 0; infos_lens[infos_n++] = 1; infos_lens[infos_n++] = 2; infos_lens[infos_n++] = 100; infos_lens[infos_n++] = 1000;
     /* around every place where the value can end relative to a buffer end (the other infos and the keys take < 200 bytes) */
-    for (int m = 1; m <= 3; m++) for (long d = -200; d <= 8; d++) if (thorough || d >= -2 || (d % 8) == 0) infos_lens[infos_n++] = m * avail + d;
+    for (int m = 1; m <= 3; m++) for (long d = -200; d <= 8; d++) if (thorough || d >= -2 || (d % 16) == 0) infos_lens[infos_n++] = m * avail + d;
 }
 static int gen_infos(const unit_t *u, case_fn fn, void *arg)
 {
     char prog[256];
     for (long idx = u->lo; idx < u->hi; idx++) {
-        snprintf(prog, sizeof(prog), "K=0,4 M=0 P=1 X=0,0 G=%ld R=0 ; A+0 B+0", infos_lens[idx]);
+        snprintf(prog, sizeof(prog), "K=0,4 M=0 P=1 X=0,0 G=%ld R=0 ; A+0 B+1", infos_lens[idx]);
+        int r = fn(prog, arg); if (r) return r;
+    }
+    return 0;
+}
+/* leg "windows": the de Bruijn cycle B(8,n) cut into nseg overlapping segments; every sequence of n symbols is a window of one segment.
+ * u->n = n, index = phase * nseg + seg ; phase 1 (or, with a single phase, every odd segment) shifts both streams by an odd number of bytes first */
+static int win_nseg = 4, win_phases = 1;
+static int gen_windows(const unit_t *u, case_fn fn, void *arg)
+{
+    char prog[256];
+    for (long idx = u->lo; idx < u->hi; idx++) {
+        int seg = (int)(idx % win_nseg), ph = (int)(idx / win_nseg);
+        if (ph == 0 && (win_phases > 1 || seg % 2 == 0)) snprintf(prog, sizeof(prog), "%s ; W%d:%d/%d", CFG[u->cfg], u->n, seg, win_nseg);
+        else snprintf(prog, sizeof(prog), "%s ; F0:601 F1:1225 W%d:%d/%d", CFG[u->cfg], u->n, seg, win_nseg);
+        int r = fn(prog, arg); if (r) return r;
+    }
+    return 0;
+}
+/* leg "fresh": sequences of length <= 1 and a few longer programs, each in its own process and WITHOUT resetting the writer's
+ * statics: cross-checks that the reset used by the other legs is equivalent to a new process */
+static const char *FRESH_EXTRA[] = { "UA+0x200 B-1 UB+1x100", "F0:4071 A+0 B-0", "F1:4070 B+1 A-1 A+0", "W3:0/1" };
+static long fresh_count(void) { return 1 + 8 + 4; }
+static int gen_fresh(const unit_t *u, case_fn fn, void *arg)
+{
+    char prog[256], tok[8];
+    for (long idx = u->lo; idx < u->hi; idx++) {
+        if (idx == 0) snprintf(prog, sizeof(prog), "%s ;", CFG[u->cfg]);
+        else if (idx <= 8) { h_symtok((int)idx - 1, tok); snprintf(prog, sizeof(prog), "%s ; %s", CFG[u->cfg], tok); }
+        else snprintf(prog, sizeof(prog), "%s ; %s", CFG[u->cfg], FRESH_EXTRA[idx - 9]);
         int r = fn(prog, arg); if (r) return r;
     }
     return 0;
@@ -449,6 +508,8 @@ static int gen_unit(const unit_t *u, case_fn fn, void *arg)
     if (!strcmp(u->leg, "seq")) return gen_seq(u, fn, arg);
     if (!strcmp(u->leg, "runs")) return gen_runs(u, fn, arg);
     if (!strcmp(u->leg, "dict")) return gen_dict(u, fn, arg);
+    if (!strcmp(u->leg, "windows")) return gen_windows(u, fn, arg);
+    if (!strcmp(u->leg, "fresh")) { h_fresh = 1; return gen_fresh(u, fn, arg); }
     return gen_infos(u, fn, arg);
 }
 
@@ -494,6 +555,7 @@ static int worker_case(const char *prog, void *arg)
     return 0;
 }
 
+static double h_hang_s = 30.0;   /* a single case takes milliseconds (windows: < 1 s) */
 typedef struct { pid_t pid; int unit; long skip; } wrk_t;
 static int spawn_worker(wrk_t *W, int s, unit_t *units)
 {
@@ -529,7 +591,7 @@ static int run_leg(const char *leg, unit_t *units, int nunits, int jobs, double 
         if (p <= 0) {
             struct timespec ts = { 0, 2000000 }; nanosleep(&ts, NULL);
             double now = h_now();
-            for (int s = 0; s < jobs; s++) if (W[s].pid && now - SH->slot[s].last_progress > 60.0) kill(W[s].pid, SIGKILL);   /* hang */
+            for (int s = 0; s < jobs; s++) if (W[s].pid && now - SH->slot[s].last_progress > h_hang_s) kill(W[s].pid, SIGKILL);   /* hang */
             continue;
         }
         int s; for (s = 0; s < jobs; s++) if (W[s].pid == p) break;
@@ -568,12 +630,13 @@ static int add_units(unit_t *U, int nu, const char *leg, int cfg, int n, long to
 
 int main(int argc, char **argv)
 {
-    int jobs = 16, maxlen = 5, thorough = 0; const char *only = NULL; const char *one = NULL;
+    int jobs = 16, maxlen = 5, thorough = 0, freshlen = -1; const char *only = NULL; const char *one = NULL;
     sx_init(argc, argv, "C42");
     for (int i = 1; i < argc; i++) {
         if (!strcmp(argv[i], "--jobs") && i + 1 < argc) jobs = atoi(argv[++i]);
         else if (!strcmp(argv[i], "--maxlen") && i + 1 < argc) maxlen = atoi(argv[++i]);
         else if (!strcmp(argv[i], "--thorough")) thorough = 1;
+        else if (!strcmp(argv[i], "--freshlen") && i + 1 < argc) freshlen = atoi(argv[++i]);
         else if (!strcmp(argv[i], "--leg") && i + 1 < argc) only = argv[++i];
         else if (!strcmp(argv[i], "--case") && i + 1 < argc) one = argv[++i];
     }
@@ -607,38 +670,51 @@ int main(int argc, char **argv)
 
     SH = mmap(NULL, sizeof(shared_t), PROT_READ | PROT_WRITE, MAP_SHARED | MAP_ANONYMOUS, -1, 0);
     if (SH == MAP_FAILED) { perror("mmap"); return 2; }
-    /* configurations: (info lengths of A and B, mode, buffer pages) */
+    /* configurations: (info lengths of A and B, mode = which API + which events carry a payload, buffer pages) */
     int nc = 0;
     static const int L3[3] = { 0, 4, 24 };
     if (!thorough) {
         snprintf(CFG[nc++], 96, "K=0,4 M=0 P=1 X=0,0 G=5 R=0");
         snprintf(CFG[nc++], 96, "K=4,24 M=1 P=1 X=0,0 G=5 R=1");
         snprintf(CFG[nc++], 96, "K=24,0 M=2 P=1 X=0,0 G=5 R=2");
-        ncfg_seq = nc;
     } else {
-        for (int a = 0; a < 3; a++) for (int b = 0; b < 3; b++) { if (a == b) continue; snprintf(CFG[nc], 96, "K=%d,%d M=%d P=1 X=0,0 G=5 R=%d", L3[a], L3[b], (a + 2 * b) % 3, nc % 4); nc++; }
+        for (int a2 = 0; a2 < 3; a2++) for (int b2 = 0; b2 < 3; b2++) { if (a2 == b2) continue; snprintf(CFG[nc], 96, "K=%d,%d M=%d P=1 X=0,0 G=5 R=%d", L3[a2], L3[b2], (a2 + 2 * b2) % 3, nc % 4); nc++; }
         snprintf(CFG[nc++], 96, "K=4,24 M=0 P=2 X=1,9 G=5 R=0");
-        ncfg_seq = nc;
     }
+    ncfg_seq = nc;
+    /* windows leg: the same + odd info lengths, with which events can fill a buffer to the byte (the space of a buffer is odd) */
+    int cfg_win0 = 0, ncfg_win;
+    snprintf(CFG[nc++], 96, "K=5,24 M=0 P=1 X=0,0 G=5 R=0");
+    if (thorough) { snprintf(CFG[nc++], 96, "K=1,4 M=2 P=1 X=0,0 G=5 R=1"); snprintf(CFG[nc++], 96, "K=7,0 M=1 P=2 X=0,0 G=5 R=0"); }
+    ncfg_win = nc;
     cfg_runs0 = nc;
-    for (int a = 0; a < 3; a++) for (int m = 0; m < 3; m++) { snprintf(CFG[nc], 96, "K=%d,%d M=%d P=1 X=0,0 G=5 R=0", L3[a], L3[(a + 1 + m) % 3], m); nc++; }
+    for (int a2 = 0; a2 < 3; a2++) for (int m = 0; m < 3; m++) { if (!thorough && m != a2) continue; snprintf(CFG[nc], 96, "K=%d,%d M=%d P=1 X=0,0 G=5 R=0", L3[a2], L3[(a2 + 1 + m) % 3], m); nc++; }
     if (thorough) for (int m = 0; m < 3; m++) { snprintf(CFG[nc], 96, "K=%d,%d M=%d P=2 X=0,0 G=5 R=3", L3[m], L3[(m + 1) % 3], m); nc++; }
     ncfg_runs = nc - cfg_runs0;
     infos_init(thorough);
+    if (!thorough) { RUN_K = 2; NTAIL = 2; dict_step = 3; conv_step = 5; win_nseg = 4; win_phases = 1; }
+    else { RUN_K = 4; NTAIL = 5; dict_step = 1; conv_step = 1; win_nseg = 128; win_phases = 1; }
+    if (freshlen < 0) freshlen = thorough ? 3 : 2;
 
     static unit_t U[1 << 16]; int nu;
-    if (!only || !strcmp(only, "seq")) {
-        nu = 0;
-        /* long lengths first so that the tail of the schedule is made of small units */
-        for (int n = maxlen; n >= 0; n--) for (int c = 0; c < ncfg_seq; c++) { long chunk = 6000 / (1 + 3 * n); nu = add_units(U, nu, "seq", c, n, seq_count(n), chunk < 1 ? 1 : chunk); }
-        rc |= run_leg("seq", U, nu, jobs, deadline);
+    if (!only || !strcmp(only, "windows")) {
+        nu = 0; for (int c = cfg_win0; c < ncfg_win; c++) nu = add_units(U, nu, "windows", c, maxlen, (long)win_nseg * win_phases, thorough ? 4 : 1);
+        rc |= run_leg("windows", U, nu, jobs, deadline);
     }
-    if (!only || !strcmp(only, "runs")) {
-        nu = 0; for (int c = 0; c < ncfg_runs; c++) nu = add_units(U, nu, "runs", cfg_runs0 + c, 0, runs_count(), 70);
+    if (!rc && (!only || !strcmp(only, "runs"))) {
+        nu = 0; for (int c = 0; c < ncfg_runs; c++) nu = add_units(U, nu, "runs", cfg_runs0 + c, 0, runs_count(), 40);
         rc |= run_leg("runs", U, nu, jobs, deadline);
     }
-    if (!only || !strcmp(only, "dict")) { nu = add_units(U, 0, "dict", 0, 0, dict_count(), 13); rc |= run_leg("dict", U, nu, jobs, deadline); }
-    if (!only || !strcmp(only, "infos")) { nu = add_units(U, 0, "infos", 0, 0, infos_n, 8); rc |= run_leg("infos", U, nu, jobs, deadline); }
+    if (!rc && (!only || !strcmp(only, "dict"))) { nu = add_units(U, 0, "dict", 0, 0, dict_count(), 10); rc |= run_leg("dict", U, nu, jobs, deadline); }
+    if (!rc && (!only || !strcmp(only, "infos"))) { nu = add_units(U, 0, "infos", 0, 0, infos_n, 10); rc |= run_leg("infos", U, nu, jobs, deadline); }
+    if (!rc && (!only || !strcmp(only, "fresh"))) { nu = 0; for (int c = 0; c < (thorough ? ncfg_seq : 3); c++) nu = add_units(U, nu, "fresh", c, 0, fresh_count(), 1); rc |= run_leg("fresh", U, nu, jobs, deadline); }
+    if (!rc && (!only || !strcmp(only, "seq"))) {
+        nu = 0;
+        /* long lengths first so that the tail of the schedule is made of small units */
+        for (int n = freshlen; n >= 0; n--) for (int c = 0; c < ncfg_seq; c++) { if (!thorough && c == 2 && n > 1) continue;   /* quick: the third configuration only up to length 1 */
+            long chunk = 160 / (1 + 3 * n); nu = add_units(U, nu, "seq", c, n, seq_count(n), chunk < 1 ? 1 : chunk); }
+        rc |= run_leg("seq", U, nu, jobs, deadline);
+    }
     rmdir(h_dir);
     return sx_finish();
 }
